@@ -26,6 +26,7 @@ func isPathPkg(f *ssa.Function, name string) bool {
 }
 
 type c11State struct {
+	helperDepth int
 	c       *Ctx
 	htfs    *types.Named
 	cwdIdx  int
@@ -120,6 +121,25 @@ func (s *c11State) rc(v ssa.Value) bool {
 				}
 			}
 			s.whyNot[v] = "Clean of a path that is not known to be absolute at this point (a relative `..` survives Clean)"
+			return false
+		}
+		// a helper of the filesystem (virtualPath(path)): rooted clean when every value it returns is
+		if f != nil && InRepo(f) && f.Blocks != nil && f != s.rp && s.helperDepth < 2 && len(Returns(f)) > 0 {
+			s.helperDepth++
+			all := true
+			for _, r := range Returns(f) {
+				rv := RetVals(r)
+				if len(rv) != 1 || !s.rootedClean(rv[0]) {
+					all = false
+					if len(rv) == 1 {
+						s.whyNot[v] = "in " + FuncShort(f) + ": " + s.whyNot[rv[0]]
+					}
+				}
+			}
+			s.helperDepth--
+			if all {
+				return true
+			}
 			return false
 		}
 		s.whyNot[v] = "result of " + calleeLabel(x)
@@ -222,6 +242,9 @@ func (s *c11State) contained(v ssa.Value) (bool, string) {
 			return true, ""
 		}
 		if f != nil && f.Synthetic != "" && f.Name() == "RealPath" && throughWrapper(f) == s.rp {
+			return true, ""
+		}
+		if s.realPathLike(f, 0) {
 			return true, ""
 		}
 		if isPathPkg(f, "Join") {
@@ -488,7 +511,7 @@ func c11(c *Ctx) {
 					switch u := ref.(type) {
 					case *ssa.Call:
 						f := u.Call.StaticCallee()
-						if f != nil && (f == s.rp || throughWrapper(f) == s.rp) {
+						if f != nil && (f == s.rp || throughWrapper(f) == s.rp || s.realPathLike(f, 0)) {
 							continue
 						}
 						if f != nil && f.Name() == fn.Name() {
@@ -553,4 +576,44 @@ func fsPathParams(f *ssa.Function) []int {
 		}
 	}
 	return nil
+}
+
+// realPathLike: f is a pass-through of RealPath – an in-repo function every return of which is RealPath (or another
+// pass-through) applied to one of f's own string parameters unchanged (e.g. `func (ftp *Fs) hostPath(p string) string
+// { return ftp.Htfs.RealPath(p) }`).
+func (s *c11State) realPathLike(f *ssa.Function, depth int) bool {
+	if f == nil || depth > 2 || f.Blocks == nil || !InRepo(f) || s.rp == nil {
+		return false
+	}
+	rets := Returns(f)
+	if len(rets) == 0 {
+		return false
+	}
+	for _, r := range rets {
+		rv := RetVals(r)
+		if len(rv) != 1 {
+			return false
+		}
+		call, ok := rv[0].(*ssa.Call)
+		if !ok {
+			return false
+		}
+		g := call.Call.StaticCallee()
+		if g == nil {
+			return false
+		}
+		if !(g == s.rp || throughWrapper(g) == s.rp || s.realPathLike(g, depth+1)) {
+			return false
+		}
+		passes := false
+		for _, a := range call.Call.Args {
+			if pr, isP := a.(*ssa.Parameter); isP && pr.Parent() == f && types.Identical(pr.Type().Underlying(), types.Typ[types.String]) {
+				passes = true
+			}
+		}
+		if !passes {
+			return false
+		}
+	}
+	return true
 }
